@@ -180,7 +180,7 @@ theorem syncPinned_agrees_on_complete (acl : Acl) (hs : List RawHead) (acc : Lis
 /-- a head is handed to the replicator iff it is complete, was written for this log, and the access
 controller admits it -/
 def RawHead.loadable (acl : Acl) (id : Nat) (h : RawHead) : Bool :=
-  h.complete && h.entry.logId == id && acl.canAppend h.entry
+  h.complete && (h.entry.logId == id && h.entry.sigOk) && acl.canAppend h.entry
 
 theorem filter_ownLog_loadable0 (acl : Acl) (id : Nat) (hs : List RawHead) :
     (hs.filter (ownLog id)).filter (RawHead.loadable0 acl) = hs.filter (RawHead.loadable acl id) := by
@@ -188,7 +188,7 @@ theorem filter_ownLog_loadable0 (acl : Acl) (id : Nat) (hs : List RawHead) :
   congr 1
   funext h
   unfold RawHead.loadable0 RawHead.loadable ownLog
-  cases h.complete <;> cases (h.entry.logId == id) <;> cases acl.canAppend h.entry <;> rfl
+  cases h.complete <;> cases (h.entry.logId == id) <;> cases h.entry.sigOk <;> cases acl.canAppend h.entry <;> rfl
 
 /-- **what `Sync` hands to the replicator** (equality form): exactly the entries of the complete
 heads of the message that were written for this log and that the access controller admits, in order -/
@@ -200,13 +200,14 @@ theorem syncHeads_loads_exactly_loadable (acl : Acl) (id : Nat) (hs : List RawHe
 
 theorem syncHeads_loads_only_own_admitted (acl : Acl) (id : Nat) (hs : List RawHead) (es : List Entry)
     (h : syncHeads acl id hs [] = .load es) :
-    ∀ e ∈ es, ∃ r ∈ hs, r.complete = true ∧ r.entry.logId = id ∧ acl.canAppend r.entry = true ∧ r.entry = e := by
+    ∀ e ∈ es, ∃ r ∈ hs, r.complete = true ∧ r.entry.logId = id ∧ r.entry.sigOk = true ∧
+      acl.canAppend r.entry = true ∧ r.entry = e := by
   have heq := syncHeads_loads_exactly_loadable acl id hs es h
   subst heq
   intro e he
   simp only [List.mem_map, List.mem_filter, RawHead.loadable, Bool.and_eq_true, beq_iff_eq] at he
-  obtain ⟨r, ⟨hr, ⟨hc, hl⟩, ha⟩, rfl⟩ := he
-  exact ⟨r, hr, hc, hl, ha, rfl⟩
+  obtain ⟨r, ⟨hr, ⟨hc, hl, hs'⟩, ha⟩, rfl⟩ := he
+  exact ⟨r, hr, hc, hl, hs', ha, rfl⟩
 
 theorem syncHeads_never_panics (acl : Acl) (id : Nat) (hs : List RawHead) (acc : List Entry) :
     syncHeads acl id hs acc ≠ .panic := syncHeads0_never_panics acl _ acc
@@ -221,6 +222,17 @@ theorem foreign_head_was_loaded (e : Entry) (h : e.logId = 2) (hk : e.key = e.id
   constructor
   · simp [syncHeadsLoadsForeign, syncHeads0, RawHead.complete, Acl.canAppend, hk, hi, hh]
   · simp [syncHeads, ownLog, RawHead.complete, h, syncHeads0]
+
+/-- Refutation witness for the tree before the repair of finding F22: a complete head that names a
+writer (anybody can copy a writer's identity block) but is not signed by it passed `Sync` and was
+handed to the replicator, which fetched whatever it pointed to -/
+theorem badly_signed_head_was_loaded (e : Entry) (h : e.logId = 1) (hk : e.key = e.ident) (hi : e.identOk = true)
+    (hh : e.hashOk = true) (hs : e.sigOk = false) :
+    syncHeads0 { wildcard := true } [{ entry := e }] [] = .load [e] ∧
+    syncHeads { wildcard := true } 1 [{ entry := e }] [] = .load [] := by
+  constructor
+  · simp [syncHeads0, RawHead.complete, Acl.canAppend, hk, hi, hh]
+  · simp [syncHeads, ownLog, RawHead.complete, h, hs, syncHeads0]
 
 /-! ## the listener carries no state between messages -/
 
